@@ -1,6 +1,7 @@
 package main
 
 import (
+	"path/filepath"
 	"fmt"
 	"go/constant"
 	"go/token"
@@ -34,6 +35,7 @@ type Config struct {
 	SpecBudget    int
 	ItemCap       int
 	Live          string
+	FPMixed       bool
 	NoMergeIn     map[string]bool
 }
 
@@ -265,10 +267,22 @@ func (e *Engine) crossCheckPrune(st *State, c *Term) bool {
 	if e.pruneSeq%40 != 0 {
 		return true
 	}
-	r, _, by := e.solver.Escalate(st.feasPC(), c, 30, false, []string{"cvc5", "z3-4.8.12"})
+	// the cross-check asserts exactly the conjuncts the live query asserted:
+	// inside a speculated branch side the path condition may be
+	// unsatisfiable (an infeasible side only feeds an unreachable ite
+	// operand), and slicing an unsatisfiable path condition changes the answer
+	rel := e.solver.lastRel
+	ns := e.solver.NoSlice
+	e.solver.NoSlice = true
+	r, _, by := e.solver.Escalate(rel, c, 30, false, []string{"cvc5", "z3-4.8.12"})
+	e.solver.NoSlice = ns
 	e.solver.Stats.CrossCheck++
 	if r == Sat {
 		e.solver.Stats.Disagree = append(e.solver.Stats.Disagree, fmt.Sprintf("pruned branch: live solver unsat, %s sat", by))
+		// keep the query for inspection
+		dir := filepath.Join(verifDir(), "work", "disagree")
+		os.MkdirAll(dir, 0o755)
+		os.WriteFile(filepath.Join(dir, fmt.Sprintf("prune_%d_%d.smt2", os.Getpid(), e.pruneSeq)), []byte(e.solver.script(rel, c, "", true)), 0o644)
 		return false
 	}
 	return true
